@@ -575,6 +575,8 @@ def fam_aggregation(d, seed):
     fam = d['fam']
     n = d.get('n', 5)
     x0 = val.pos(n, 40, seed, 0.3, 1.7)
+    if d.get('shape') == 'mat':          # a matrix-shaped input (e.g. the (#components x #elements) output of Stress)
+        x0 = x0.reshape(2, n // 2)
     par = d['param']
 
     def mk_as():
@@ -605,7 +607,7 @@ def fam_aggregation(d, seed):
         if d.get('warm'):
             # damped scaling has a memory: the module has already seen another input, so its scaling factor differs from
             # the ratio at the input it is evaluated at afterwards
-            sx.state = val.pos(n, 41, seed, 0.5, 2.5)
+            sx.state = val.pos(n, 41, seed, 0.5, 2.5).reshape(x0.shape)
             m.response()
             sx.state = x0.copy()
         return m, [sx], m.sig_out
@@ -772,6 +774,9 @@ def lattice(tier, seed):
     for fam, pars in (('PNorm', (3, -2)), ('SoftMinMax', (2.0, -3.0)), ('KSFunction', (2.0, -3.0))):
         for par in pars:
             yield dict(fam=fam, param=par, scaling='max' if par > 0 else 'min', active='none', n=6, damping=0.5, warm=True)
+            for act in ('none', 'band'):
+                for sc in ('none', 'max' if par > 0 else 'min'):
+                    yield dict(fam=fam, param=par, scaling=sc, active=act, n=6, shape='mat')
     for mode in ('objective', 'minval', 'maxval'):
         for shp in ('py', 'np0', 'vec'):
             yield dict(fam='Scaling', mode=mode, shape=shp)
